@@ -260,6 +260,23 @@ static void *sender_main(void *arg)
 	return NULL;
 }
 
+/* a thread that does not take part in signal handling (everything blocked) forks at some moment */
+static int forker_done;
+
+static void *forker_main(void *arg)
+{
+	unsigned long before;
+
+	p_sigmask[sx_tid()] = ~0UL;
+	before = p_sigmask[sx_tid()];
+	sx_sched();
+	if (fork() == 0)
+		sx_end();	/* the child execs something else */
+	sx_assert(p_sigmask[sx_tid()] == before, "C10.fork-changed-the-callers-signal-mask");
+	forker_done = 1;
+	return NULL;
+}
+
 static void *loop2_main(void *arg)
 {
 	int i;
@@ -335,6 +352,17 @@ void sx_main(void)
 			do_register(&I[i]);
 	if (nThreads > 1)
 		pthread_create(&th, NULL, loop2_main, NULL);
+	if (sx_opt("forkers", 0)) {
+		/* two threads with different signal masks fork at the same time */
+		unsigned long before = p_sigmask[sx_tid()];
+		pthread_t ft;
+
+		pthread_create(&ft, NULL, forker_main, NULL);
+		if (fork() == 0)
+			sx_end();
+		sx_assert(p_sigmask[sx_tid()] == before, "C10.fork-changed-the-callers-signal-mask");
+		sx_cover("signal.concurrent-forks");
+	}
 	if (sx_opt("forkchild", 0)) {
 		if (fork() == 0) {
 			/* a signal in the child (before exec) must not reach the parent's interests; the
